@@ -45,6 +45,10 @@ func idpScenario(keyLayout int, fullSession bool, vary bool) *idpRun {
 	r.req = &IdpAuthnRequest{IDP: r.idp, Now: r.now, HTTPRequest: &http.Request{RemoteAddr: verifNondetString("remoteAddr")}}
 	r.req.RelayState = verifNondetString("relayState")
 	if !vary || verifChoose("idpInitiated", 2) == 0 {
+		// everything in the request is the requester's to choose (the IdP does not verify request signatures):
+		// all fields arbitrary, optional elements present or absent
+		verifHavoc("request", &r.req.Request)
+		r.req.Request.Signature = nil
 		r.req.Request.ID = verifNondetString("request.ID")
 		r.req.Request.IssueInstant = verifNondetTimeMs("request.IssueInstant")
 		r.req.Request.AssertionConsumerServiceURL = verifNondetString("request.ACSURL")
